@@ -232,4 +232,47 @@ NUses == 12
 Written(B)  == UsesSeq(Grp(B), Grp(B), Grp(B))
 InlineSub(B) == UsesSeq(Sub("s", B), Ref("s"), Ref("s"))
 GlobalRef(B) == UsesSeq(Ref("s"), Ref("s"), Ref("s"))
+
+(* ===================================================================== C09 *)
+NotWhole(c) == [k |-> "whole", c |-> c, neg |-> TRUE]
+NullCap == Cap("x", Grp(<<Loop(0, 1, FALSE, La)>>))
+C09_Bodies ==
+  { <<>>, <<Grp(<<>>)>>, <<Grp(<<>>), La>>, <<La, Grp(<<>>)>>, <<Loop(0, -1, FALSE, Grp(<<>>))>>, <<Loop(2, 2, FALSE, Grp(<<>>))>>,
+    <<NullCap, Ref("x")>>, <<Lb, NullCap, Ref("x")>>, <<Cap("x", Grp(<<>>)), Ref("x"), La>>,
+    <<Lb, Cap("x", Grp(<<Loop(0, -1, FALSE, La)>>)), Ref("x")>>,
+    <<Loop(0, -1, FALSE, Grp(<<NullCap, Ref("x")>>))>>, <<Loop(1, -1, FALSE, Grp(<<NullCap, Ref("x"), Lb>>))>>,
+    <<Sub("s", <<Loop(0, 1, FALSE, La)>>), Ref("s"), Ref("s")>>,
+    <<Lit(<<>>)>>, <<La, Lit(<<>>)>>, <<Lit(<<>>), La>>, <<NotIn(<<Lit(<<>>)>>)>>, <<In(<<Lit(<<>>), La>>)>>, <<Cap("x", Lit(<<>>)), Ref("x")>>,
+    <<NotIn(<<Lab>>)>>, <<La, NotIn(<<Lab, Lb>>)>>, <<In(<<Rng(<<ba>>, <<ba, bb>>)>>)>>, <<NotLit(<<ba, bb>>)>>, <<La, NotLit(<<ba, bb>>)>>,
+    <<In(<<Rng(<<bb>>, <<ba>>)>>)>>, <<NotIn(<<Rng(<<ba>>, <<ba, bb>>)>>)>> }
+  \cup { <<x>> : x \in AncLeaves } \cup { <<Cls("any"), x>> : x \in AncLeaves } \cup { <<x, Cls("any")>> : x \in AncLeaves }
+  \cup { <<Loop(0, -1, FALSE, Cls("any")), x>> : x \in AncLeaves } \cup { <<x, y>> : x \in AncLeaves, y \in {Anc("fileend"), Anc("wordend"), NotAnc("linestart")} }
+  \cup { <<x>> : x \in ClsLeaves } \cup { <<La, x>> : x \in ClsLeaves } \cup { <<Loop(1, -1, FALSE, x)>> : x \in ClsLeaves }
+  \cup { <<Whole(c)>> : c \in {"file", "line", "word"} } \cup { <<NotWhole(c)>> : c \in {"file", "line", "word"} }
+  \cup { <<La, Whole(c)>> : c \in {"file", "line", "word"} } \cup { <<Whole(c), La>> : c \in {"file", "line", "word"} }
+  \cup { <<Loop(q[1], q[2], FALSE, Whole(c))>> : q \in {<<0, -1>>, <<1, -1>>, <<0, 1>>}, c \in {"line", "word"} }
+  \cup { <<Cls("any"), NotWhole(c), Whole(c)>> : c \in {"line", "word"} }
+  \cup { <<Cap("x", Whole("word")), Loop(0, 1, FALSE, Lit(<<sp>>)), Ref("x")>> }
+
+(* ===================================================================== C10 *)
+NullLeaves == AncLeaves \cup { Grp(<<>>), Grp(<<Loop(0, 1, FALSE, La)>>), Grp(<<Or(La, Grp(<<>>))>>), Grp(<<Or(Grp(<<>>), La)>>),
+                               NullCap, Grp(<<NotIn(<<La>>)>>), NotWhole("line"), Grp(<<Loop(0, -1, TRUE, Cls("any"))>>) }
+NullCore  == { Anc("lineend"), NotAnc("wordstart"), Grp(<<>>), Grp(<<Loop(0, 1, FALSE, La)>>), Grp(<<Or(La, Grp(<<>>))>>),
+               NullCap, Anc("wordend"), Grp(<<Loop(0, -1, TRUE, Cls("any"))>>) }
+NullTiny  == { Anc("lineend"), Grp(<<>>), Grp(<<Loop(0, 1, FALSE, La)>>), NotAnc("filestart") }
+QuantNull == { <<0, 1>>, <<0, -1>>, <<1, -1>>, <<0, 2>>, <<2, -1>> }
+QuantTiny == { <<0, -1>>, <<1, -1>> }
+LoopsQ(Q, X) == {Loop(q[1], q[2], f, x) : q \in Q, f \in BOOLEAN, x \in X}
+C10_Bodies ==
+  LET D1 == LoopsQ(QuantNull, NullLeaves)
+      D2 == LoopsQ(QuantNull, {Grp(<<l>>) : l \in LoopsQ(QuantNull, NullCore \ {NullCap})})
+      D3 == LoopsQ(QuantTiny, {Grp(<<l>>) : l \in LoopsQ(QuantTiny, {Grp(<<m>>) : m \in LoopsQ(QuantTiny, NullTiny)})})
+      S2 == {Loop(q[1], q[2], f, Grp(<<x, y>>)) : q \in QuantTiny, f \in BOOLEAN, x \in NullCore \ {NullCap}, y \in NullCore \ {NullCap}}
+      O2 == {Loop(q[1], q[2], f, Or(x, y)) : q \in QuantTiny, f \in BOOLEAN, x \in NullCore \ {NullCap}, y \in NullCore \ {NullCap}}
+      R1 == { Sub("s", <<Loop(0, 1, FALSE, La)>>) }
+  IN {<<l>> : l \in D1 \cup D2 \cup D3 \cup S2 \cup O2}
+     \cup {<<l, Lb>> : l \in D1} \cup {<<La, l>> : l \in D1}
+     \cup {<<Sub("s", <<Loop(0, 1, FALSE, La)>>), Loop(q[1], q[2], f, Ref("s"))>> : q \in QuantNull, f \in BOOLEAN}
+     \cup {<<Sub("s", <<Loop(0, -1, FALSE, Anc("lineend"))>>), Loop(q[1], q[2], f, Grp(<<Ref("s"), Ref("s")>>))>> : q \in QuantNull, f \in BOOLEAN}
+     \cup {<<Loop(q[1], q[2], f, Grp(<<Sub("s", <<Loop(0, -1, FALSE, Ref("t0"))>>)>>))>> : q \in {}, f \in BOOLEAN}
 =============================================================================
